@@ -385,7 +385,12 @@ type OblResult struct {
 	Status string // unsat, sat, unknown, timeout, error
 	Solver string
 	TimeS  float64
+	Cross  string // thorough tier: answers of the other solvers on the same (IEEE-precise) script, e.g. "cvc5:unsat z3:unknown"
 }
+
+// crossCheck (thorough tier): every obligation that one solver discharges is also given to the other two; an answer
+// `sat` from one of them is a disagreement between solvers and is reported (it never happened so far).
+var crossCheck = false
 
 var oblRe = regexp.MustCompile(`^OBL (\d+)$`)
 
@@ -482,7 +487,9 @@ func solveOne(script, path string, timeoutMs int, wantSat bool) OblResult {
 		out, secs, _ := runScriptRaw(s, path, time.Duration(t)*time.Millisecond+5*time.Second)
 		for _, ln := range strings.Split(out, "\n") {
 			if strings.TrimSpace(ln) == "unsat" {
-				return OblResult{"unsat", s.Name + "(fp-abstract)", secs}
+				if !crossCheck {
+					return OblResult{Status: "unsat", Solver: s.Name + "(fp-abstract)", TimeS: secs}
+				}
 			}
 		}
 	}
@@ -498,7 +505,26 @@ func solveOne(script, path string, timeoutMs int, wantSat bool) OblResult {
 				break
 			}
 		}
-		r := OblResult{st, s.Name, secs}
+		r := OblResult{Status: st, Solver: s.Name, TimeS: secs}
+		if st == "unsat" && crossCheck && !wantSat {
+			var cs []string
+			for _, s2 := range solvers(timeoutMs) {
+				if s2.Name == s.Name {
+					continue
+				}
+				out2, _, _ := runScriptRaw(s2, path, wall)
+				st2 := "error"
+				for _, ln := range strings.Split(out2, "\n") {
+					ln = strings.TrimSpace(ln)
+					if ln == "unsat" || ln == "sat" || ln == "unknown" || ln == "timeout" {
+						st2 = ln
+						break
+					}
+				}
+				cs = append(cs, s2.Name+":"+st2)
+			}
+			r.Cross = strings.Join(cs, " ")
+		}
 		if st == "unsat" || st == "sat" {
 			return r
 		}
